@@ -6,6 +6,7 @@ from __future__ import annotations
 import asyncio
 import datetime as _dt
 import io
+import json
 import logging
 import re
 
@@ -89,6 +90,8 @@ class Controller:
                 pass
             return echo
         if cmd.code == "0006":
+            if act == "reply-lost":
+                raise exc.ProtocolSendFailed("scripted loss of the reply")
             return self.heard(Packet.from_port(now, f"045 RP --- {CTL} 18:000730 --:------ 0006 004 0005{self.counter:04X}"))
         k = int(cmd.payload[10:12], 16)
         if cmd.verb == " W":      # a fragment being written: stored, acknowledged with an I (no fragment; the last one says total 00)
@@ -106,7 +109,11 @@ class Controller:
                 if self.on_write:
                     self.on_write(zone)
             body = f"{cmd.payload[:10]}{k:02X}{0 if last else total:02X}"
+            if act == "reply-lost":       # the controller HAS the fragment (and has committed the set, if it was the last one); its acknowledgement never arrives
+                raise exc.ProtocolSendFailed("scripted loss of the acknowledgement")
             return self.heard(Packet.from_port(now, f"045  I --- {CTL} 18:000730 --:------ 0404 007 {body}"))
+        if act == "reply-lost":
+            raise exc.ProtocolSendFailed("scripted loss of the reply")
         frs = self.zones[zone][1]
         if k > len(frs):
             k = len(frs)
@@ -188,8 +195,11 @@ def episode(scn):
         ctl.new_schedule = new_schedule
         ctl.on_write = lambda z: versions_seen.setdefault(z, []).append(ctl.zones[z][0])
 
+        written_days = []
+
         async def write(z, timeout):
             days = gen_schedule(ctl.rng, False, 3)
+            written_days.append(days)
             try:
                 r = await asyncio.wait_for(zones[z]._schedule.set_schedule(days), timeout)
                 return ("written" if r == days and ctl.zones[z][0] == days else "write-returns-other-schedule", r)
@@ -201,23 +211,36 @@ def episode(scn):
         for z in scn.get("small", ()):
             ctl.new_schedule(z, bump=False, days=small_schedule(ctl.rng))
             versions_seen[z] = [ctl.zones[z][0]]
+        sched0 = zones[0]._schedule
+        obs["cache"] = []
+
+        def cache_obs(n_before, cached_ok):
+            full = sched0._full_schedule or {}
+            obs["cache"].append({"cache": full.get("schedule"), "sver": sched0._sched_ver, "gver": sched0._global_ver, "csched": ctl.zones[0][0], "cver": ctl.counter,
+                                 "calls": [(c[1], ctl.verbs[n_before + i]) for i, c in enumerate(ctl.calls[n_before:])], "first_call": n_before, "cached_ok": cached_ok})
+
         for step in scn["steps"]:
+            n_before = len(ctl.calls)
+            m6 = getattr(gwy.tcs, "_msg_0006", None)
+            cached_ok = bool(m6 is not None and m6.dtm > VDT.now() - _dt.timedelta(minutes=3))
+            if step[0] in ("bump", "shrink"):
+                (ctl.new_schedule(step[1]) if step[0] == "bump" else ctl.new_schedule(step[1], days=small_schedule(ctl.rng)))
+                cache_obs(n_before, cached_ok)
+                continue
             if step[0] == "fetch":
                 results.append(await fetch(step[1], step[2]))
             elif step[0] == "probe":
                 results.append(await fetch(step[1], step[2], force=True, probe=True))
             elif step[0] == "set":
                 results.append(await write(step[1], step[2]))
-            elif step[0] == "bump":
-                ctl.new_schedule(step[1])
-                continue
-            elif step[0] == "shrink":
-                ctl.new_schedule(step[1], days=small_schedule(ctl.rng))
-                continue
             elif step[0] == "together":
                 results.extend(await asyncio.gather(*(fetch(z, step[2]) for z in step[1])))
             obs.setdefault("lock_after", []).append(gwy.tcs.zone_lock_idx)
+            cache_obs(n_before, cached_ok)
         obs["results"] = [(k, None) for k, _ in results]
+        obs["written_days"] = list(written_days)
+        obs["initial_sched"] = versions_seen[0][0]
+        obs["nfrags_written"] = [len(S.full_sched_to_fragz({"zone_idx": "00", "schedule": d})) for d in written_days]
         obs["calls"] = len(ctl.calls)
         obs["verbs"] = list(ctl.verbs)
         obs["codes"] = [c[1] for c in ctl.calls]
@@ -515,6 +538,7 @@ def run(ctx: Ctx) -> None:
     else:
         ctx.obligation("correspondence:lock-discipline", False, "correspondence", "model not built")
 
+    cache_correspondence(ctx, built, 120 if thorough else 40)
     # ---- the reassembly itself: model vupdate/vfeed/fetch against the real _update_payload_set / _get_schedule
     ra = reassembly(rng.randrange(10**6), 600 if thorough else 150, 300 if thorough else 80)
     tot = ra["totals"]
@@ -572,6 +596,97 @@ def run(ctx: Ctx) -> None:
         ctx.obligation("correspondence:reassembly", False, "correspondence", "model not built")
         ctx.obligation("correspondence:fetch-loop", False, "correspondence", "model not built")
         ctx.obligation("correspondence:overheard-traffic", False, "correspondence", "model not built")
+
+
+def cache_correspondence(ctx: Ctx, built: bool, n: int) -> None:
+    """M_SchedCache against real Schedule objects, state by state: random sequences of fetches (forced or not), writes and changes on the controller,
+    with ONE exchange failing (raising / never answering / its reply lost after the controller acted) at a random position; after every step the
+    zone's remembered schedule, its two version readings, the controller's schedule and counter are compared with the model's."""
+    rng = ctx.rng
+    cases, impl, descr = [], [], []
+    for trial in range(n):
+        steps = [("fetch", 0, 30)]
+        for _ in range(rng.randint(2, 6)):
+            steps.append(rng.choice([("fetch", 0, 30), ("probe", 0, 30), ("set", 0, 30), ("set", 0, 30), ("bump", 0), ("bump", 1), ("fetch", 0, 30)]))
+        seed = rng.randrange(10**6)
+        base = episode({"seed": seed, "plan": {}, "steps": steps})
+        plan = {}
+        if base["calls"] and rng.random() < 0.8:
+            plan = {str(rng.randrange(base["calls"])): rng.choice(["raise", "hang", "reply-lost", "reply-lost"])}
+        o = episode({"seed": seed, "plan": plan, "steps": steps})
+        fault = next(iter(plan.items()), (None, None))
+        fpos = int(fault[0]) if fault[0] is not None else None
+        # schedule ids as the model numbers them: 1 = the controller's first; every change on the controller and every write takes the next number
+        ops, rows, wi = [], [], 0
+        for st, c in zip(steps, o.get("cache", [])):
+            calls = c["calls"]
+            failed_at = fpos - c["first_call"] if fpos is not None and c["first_call"] <= fpos < c["first_call"] + len(calls) else None
+            if st[0] in ("fetch", "probe"):
+                ios = [("false" if (failed_at is not None and j == failed_at) else "true") for j, (code, _) in enumerate(calls) if code == "0006"]
+                frag_fail = failed_at is not None and calls[failed_at][0] == "0404"
+                ops.append(f"OFetch {'true' if st[0] == 'probe' else 'false'} {'true' if c['cached_ok'] else 'false'} [{'; '.join(ios)}] {'false' if frag_fail else 'true'}")
+            elif st[0] == "set":
+                ws = [j for j, (code, verb) in enumerate(calls) if code == "0404" and verb == " W"]
+                w, vq = "WAllOk", "true"
+                if failed_at is not None and calls[failed_at][0] == "0404":
+                    last = failed_at == ws[-1] if ws else False
+                    # did the controller get the whole set?  only when the LAST fragment's acknowledgement was lost after it acted
+                    w = "WCommittedButReplyLost" if (last and fault[1] == "reply-lost" and len(ws) == o["nfrags_written"][wi]) else "WFailsEarly"
+                elif failed_at is not None and calls[failed_at][0] == "0006":
+                    vq = "false"
+                ops.append(f"OWrite {w} {vq}")
+                wi += 1
+            elif st[0] == "bump":
+                ops.append("OCtlChange" if st[1] == 0 else "OOtherChange")
+            rows.append(c)
+        if len(rows) != len(steps):
+            continue
+        # map schedules to the model's numbers by replaying the numbering rule
+        nxt, wi = 2, 0
+        by_days = {}
+
+        def key(d):
+            return json.dumps(d, sort_keys=True)
+
+        by_days[key(base["initial_sched"])] = 1
+        for st in steps:
+            if st[0] == "set":
+                by_days[key(o["written_days"][wi])] = nxt
+                wi += 1
+                nxt += 1
+            elif st[0] == "bump" and st[1] == 0:
+                nxt += 1          # the controller's new schedule: numbered when it is seen below
+        nxt2, wi = 2, 0
+        seq = []
+        for st, c in zip(steps, rows):
+            if st[0] == "set":
+                nxt2 += 1
+            elif st[0] == "bump" and st[1] == 0:
+                by_days[key(c["csched"])] = nxt2
+                nxt2 += 1
+            rel = lambda v: 0 if not v else v - 4   # noqa: E731
+            seq.append([by_days.get(key(c["cache"]), -1) if c["cache"] is not None else 0, rel(c["sver"]), rel(c["gver"]), by_days.get(key(c["csched"]), -1), rel(c["cver"])])
+        cases.append("tr (M_SchedCache.init) [" + "; ".join(ops) + "]")
+        impl.append(seq)
+        descr.append({"steps": [list(x) for x in steps], "fault": plan})
+        ctx.case(("cache", seed, repr(steps), repr(plan)), bool(plan), "schedule-cache-history")
+    if not built:
+        ctx.obligation("correspondence:remembered-schedule", False, "correspondence", "model not built")
+        return
+    pre = ("From Coq Require Import ZArith List Bool.\nFrom RV Require Import M_SchedCache.\nImport ListNotations.\nOpen Scope Z_scope.\n"
+           "Set Printing Width 1000000.\nSet Printing Depth 1000000.\n"
+           "Definition ob (s : st) : list Z := [match cache s with Some c => c | None => 0 end; sver s; gver s; csched s; cver s].\n"
+           "Fixpoint tr (s : st) (ops : list op) : list (list Z) := match ops with [] => [] | o :: r => let s1 := fst (step false s o) in ob s1 :: tr s1 r end.\n")
+    rc, out = common.coq_eval("C18cache", {"x": pre + "".join(f"Eval vm_compute in ({c}).\n" for c in cases)}, timeout=300)["x"]
+    if rc:
+        ctx.obligation("correspondence:remembered-schedule", False, "correspondence", out[-400:])
+        return
+    got = [[list(r) for r in eval(x.replace(";", ","), {"__builtins__": {}})] for x in re.findall(r"=\s*(\[.*?\])\s*:\s*list \(list Z\)", out, flags=re.S)]  # noqa: S307
+    bad = [i for i, (a, b) in enumerate(zip(got, impl)) if a != b]
+    ctx.obligation("correspondence:remembered-schedule", not bad and len(got) == len(impl), "correspondence",
+                   f"{len(bad)} of {len(impl)} histories differ; first: {descr[bad[0]]} ops {cases[bad[0]]}: model (cache, sver, gver, controller's schedule, counter) per step {got[bad[0]]}, real objects {impl[bad[0]]}"[:1500]
+                   if bad or len(got) != len(impl)
+                   else f"{len(impl)} histories of fetches / forced fetches / writes / changes with one exchange failing anywhere: the zone's remembered schedule, its version readings, the controller's schedule and counter agree with M_SchedCache after every step")
 
 
 def replay(case: dict) -> int:
